@@ -165,8 +165,11 @@ MAXC = 10**8
 @st.composite
 def strat_large(draw, tier):
     name = draw(st.sampled_from(["cantor", "rs", "rs", "szudzik", "szudzik", "pepis", "hyperbolic"]))
-    dim = 2 if name in ("cantor", "hyperbolic") else draw(st.sampled_from([2, 3]))
+    # (the n-d pairings are compositions of the 2-d one: dimensions 4 and 5 as well, for the index -> point direction)
+    dim = 2 if name in ("cantor", "hyperbolic") else draw(st.sampled_from([2, 3, 2, 3, 4, 5]))
     kind = draw(st.sampled_from(["z-near-power", "z-free", "x-free", "x-edge"]))
+    if dim >= 4:
+        kind = draw(st.sampled_from(["z-near-power", "z-free"]))
     case = {"pairing": name, "dim": dim, "kind": kind}
     # coordinates in N are images of signed coordinates through mapping_to_z: up to 2*MAXC
     cmax = 2 * MAXC
